@@ -42,6 +42,8 @@ CONSTANTS
   SeedTerm,    \* "" or the name of a terminal that the environments seed along its own components
                \* (diff with respect to a coefficient)
   NDir,        \* number of directions (spatial dimension, or number of components of the variable)
+  PipeScale,   \* PipeScale[k][e]: the factor by which option vector k of compute_form_data scales the
+               \* integrand of a cell integral in environment e (|detJ| w, or 1 without integral scaling)
   ReplMaps,    \* sequence of [src |-> terminal position, sub |-> Seq(env)]: replacement maps (C21):
                \* in environment sub[e] the terminal src has the value its image has in e (0: none)
   ChainMode,   \* "off" | "loose": a new node takes the previous constructed node as an operand unless all
@@ -494,6 +496,12 @@ DoReplace(a, p) == LET x == store[a]  m == ReplMaps[p] IN
   /\ IsVal(x)
   /\ Push(Node("replace", <<a>>, <<p>>, "", x.sh, x.fi,
                [e \in Envs |-> IF m.sub[e] = 0 THEN [t \in DOMAIN x.val[e] |-> CU] ELSE x.val[m.sub[e]]]))
+\* compute_form_data(e*dx, options k): the preprocessed integrand, evaluated with reference-frame
+\* data, is the original integrand evaluated with physical data times the measure's scaling factor
+DoPipeline(a, k) == LET x == store[a] IN
+  /\ IsVal(x) /\ TrueScalar(x)
+  /\ Push(Node("pipeline", <<a>>, <<k>>, "", << >>, << >>,
+               [e \in Envs |-> (<< >> :> CMul(x.val[e][<< >>], PipeScale[k][e]))]))
 \* variable(e): a labelled expression; denotes what e denotes
 DoVariable(a) == LET x == store[a] IN
   /\ IsVal(x) /\ x.op # "variable" /\ x.fi = << >>   \* variable.py: "Variable cannot wrap an expression with free indices"
@@ -543,6 +551,7 @@ Next ==
        \/ "seedvar" \in CurOps /\ DoSeedVariable(a)
        \/ "diff" \in CurOps /\ \E v \in Ids : DoDiff(a, v)
        \/ "replace" \in CurOps /\ \E p \in 1..Len(ReplMaps) : DoReplace(a, p)
+       \/ "pipeline" \in CurOps /\ \E k \in 1..Len(PipeScale) : DoPipeline(a, k)
        \/ "xdet" \in CurOps /\ DoXDet(a)
        \/ "xinv" \in CurOps /\ DoXInv(a)
        \/ "xadj" \in CurOps /\ DoXAdj(a)
